@@ -20,6 +20,7 @@ import (
 	"errors"
 	"fmt"
 	"io"
+	"math/rand"
 	"net"
 	"net/http"
 	"net/http/httptest"
@@ -134,6 +135,7 @@ var x13MsgNorm = []struct {
 	{regexp.MustCompile(`^create pipeline map failed, pipeline packet type .* show more than once.*`), "create pipeline map failed, pipeline packet type <t> show more than once"},
 	{regexp.MustCompile(`^broker \S* ?start failed`), "broker <name> start failed"},
 	{regexp.MustCompile(`^regexp: Compile\(.*`), "regexp: Compile(<expr>): <error>"},
+	{regexp.MustCompile(`(?s)^create (before|after) pipeline failed: .*`), "create $1 pipeline failed: <error of the pipeline's validation>"},
 }
 
 func x13Class(msg string) string {
@@ -933,6 +935,9 @@ func x13StartKafka() string {
 type x13Case struct {
 	seed *x13Seed
 	muts []x13Mut
+
+	prod  *x13Product // section product case (c13_prod_test.go): seed and muts unused
+	tuple []int
 }
 
 // The monitor is split into parts by kind group: the kit carries at most 40 violation
@@ -958,7 +963,20 @@ func TestVerif_C13_Resilience(t *testing.T)  { x13RunPart(t, "Resilience") }
 var (
 	x13SeedsOnce sync.Once
 	x13AllSeeds  []*x13Seed
+	x13ProdOnce  sync.Once
+	x13AllProds  []*x13Product
 )
+
+func x13PrepareProducts(env *x13Env, thorough bool, seed int64) []*x13Product {
+	x13ProdOnce.Do(func() {
+		x13AllProds = x13Products(env)
+		rep := x13ProdReplacer(env)
+		for _, p := range x13AllProds {
+			p.prepare(rep, thorough, rand.New(rand.NewSource(seed)))
+		}
+	})
+	return x13AllProds
+}
 
 func x13PrepareSeeds(env *x13Env) []*x13Seed {
 	x13SeedsOnce.Do(func() {
@@ -990,9 +1008,13 @@ func x13RunPart(t *testing.T, part string) {
 		"YAML-tree mutation at every node of every seed: drop, null, empty/dangling/malformed string, duration 0s/-1s/1ns, " +
 		"int 0/1/-1/large and the minimum/maximum (+-1) of easegress' own JSON schema for that property name, bool flip, empty map, map with a null value, " +
 		"empty list, list with null element / duplicated element / first element only, plus hand-written cross-section inconsistencies per kind " +
-		"(all-zero weights, policy of the wrong kind, dangling names, conflicting sections); case list per part = all seeds, then EVERY single mutation, then seeded pairs/triples of mutations. " +
+		"(all-zero weights, policy of the wrong kind, dangling names, conflicting sections); case list per part = all seeds, then EVERY single mutation, " +
+		"then SECTION PRODUCTS for kinds whose spec consists of several sub-specs (GlobalFilter: beforePipeline x afterPipeline, each absent/null/filters-only/empty-flow/4 valid shapes/10 invalid kinds of the pipeline grammar; " +
+		"Pipeline: filters x flow x resilience; HTTPServer: tls x ipFilter x rules x rules[0].ipFilter x rules[0].paths; MQTTProxy: tls x rules x limits; Proxy: pools x mirrorPool x compression x mtls x bodySize; " +
+		"the full cross product when it has <= 420 tuples, otherwise every pair of sections in every pair of variants with the other sections at a valid default, thorough: the full product or a seeded sample), " +
+		"then seeded pairs/triples of mutations. " +
 		"Accepted specs are instantiated in a real single-member cluster + supervisor and driven with 15 varied HTTP requests (with/without response, stream bodies, odd headers, signed, JWT, basic auth, TLS peer cert) " +
-		"or 14 MQTT packets / a raw MQTT conversation / 20 resilience calls, then Status, Inherit(unchanged spec), Close. distinct = (kind, mutation point shape, mutation class, outcome)")
+		"or 14 MQTT packets / a raw MQTT conversation / 20 resilience calls, then Status, Inherit(unchanged spec), Close. distinct = (kind, mutation point shape, mutation class, outcome) resp. (kind, section variant tuple, outcome)")
 	r.Assume("WasmHost is not registered in this build (build tag wasmhost) and is not covered; http3=true runs against the build stub of quic-go")
 	r.Assume("HTTP filters get HTTP contexts, MQTT filters MQTT contexts (protocol mismatch between a traffic gate and its pipeline is not generated); listening ports are chosen by the harness")
 	r.Assume("Kafka/KafkaMQTT run against sarama's in-process mock broker; a spec whose (mutated) broker address is unreachable is validated but not instantiated")
@@ -1047,12 +1069,25 @@ func x13RunPart(t *testing.T, part string) {
 			cases = append(cases, x13Case{seed: s, muts: []x13Mut{s.muts[i]}})
 		}
 	}
-	thorough := 60000 * partSingles / (allSingles + 1)
+	// section products of the kinds of this part (both tiers)
+	nProd := 0
+	prodWant := map[string]int{}
+	for _, p := range x13PrepareProducts(env, r.Thorough(), r.Seed()) {
+		if !inPart[p.Kind] {
+			continue
+		}
+		for _, t := range p.tuples {
+			cases = append(cases, x13Case{prod: p, tuple: t})
+		}
+		nProd += len(p.tuples)
+		prodWant[p.Kind] = len(p.tuples)
+	}
+	thorough := 60000*partSingles/(allSingles+1) + nProd
 	total := r.N(len(cases)+partSingles/8, thorough)
 	if total < len(cases) {
 		total = len(cases)
 	}
-	r.Note("part %s: %d seeds, %d single mutations, %d seeded pairs/triples", part, nSeeds, partSingles, total-len(cases))
+	r.Note("part %s: %d seeds, %d single mutations, %d section-product tuples, %d seeded pairs/triples", part, nSeeds, partSingles, nProd, total-len(cases))
 
 	for i := 0; i < total; i++ {
 		if !r.Mine(i) {
@@ -1066,13 +1101,19 @@ func x13RunPart(t *testing.T, part string) {
 			s := seeds[rng.Intn(len(seeds))]
 			c = x13Case{seed: s, muts: x13PickCombo(rng, s.muts, func(k int) bool { return h.singleAccepted(s, k) })}
 		}
+		if c.prod != nil {
+			h.runProduct(i, c)
+			continue
+		}
 		h.runCase(i, c, i < nSeeds)
 	}
 
 	// ---- evidence and required observations
 	var totalSpecs, totalAcc int64
 	for _, k := range kinds {
-		tot, acc := r.Counter("specs/"+k), r.Counter("accepted/"+k)
+		// the acceptance rate is a statement about the mutation generator: section products
+		// (mostly invalid by construction) are not part of it
+		tot, acc := r.Counter("specs/"+k), r.Counter("accepted/"+k)-r.Counter(x13ProdCounter(k, "accepted"))
 		totalSpecs += tot
 		totalAcc += acc
 		r.Require("accepted/"+k, 1)
@@ -1086,6 +1127,15 @@ func x13RunPart(t *testing.T, part string) {
 	r.Count("acceptance_margin(3*accepted-specs)", 3*totalAcc-totalSpecs)
 	r.Require("acceptance_margin(3*accepted-specs)", 0)
 	r.Require("seed_accepted", 1)
+	// section products: every tuple of the list was run, and both verdicts of validation occurred
+	for k, n := range prodWant {
+		r.Count(x13ProdCounter(k, "total"), 0)
+		r.Count(x13ProdCounter(k, "accepted"), 0)
+		r.Count(x13ProdCounter(k, "rejected"), 0)
+		r.Require(x13ProdCounter(k, "total"), int64(n))
+		r.Require(x13ProdCounter(k, "accepted"), 1)
+		r.Require(x13ProdCounter(k, "rejected"), 1)
+	}
 }
 
 func (h *x13H) runCase(i int, c x13Case, isSeed bool) {
